@@ -28,6 +28,17 @@ pub struct MFault {
     pub pos: usize,
 }
 
+/// The value fed to direction input `k`: the index bit, or (fault `index_bit_nonbool` aimed at
+/// this bit) a field element that is neither 0 nor 1 — no index corresponds to it, so no opening
+/// with it is one the native scheme accepts.
+pub fn dir_value<F: p3_field::PrimeField64, CF: p3_field::PrimeCharacteristicRing + From<F>>(f: &MFault, log_max: usize, k: usize, bit: bool) -> CF {
+    if f.kind == "index_bit_nonbool" && log_max > 0 && f.pos % log_max == k {
+        let v = [2u64, 7, F::ORDER_U64 - 1][(f.pos / log_max) % 3];
+        return CF::from(F::from_u64(v));
+    }
+    CF::from_bool(bit)
+}
+
 pub struct CaseOut {
     pub native: bool,
     pub circuit: Result<(), String>,
@@ -189,6 +200,11 @@ macro_rules! mmcs_universe {
                         }
                         idx2 = index ^ (1 << (f.pos % log_max));
                     }
+                    "index_bit_nonbool" => {
+                        if log_max == 0 {
+                            return Err("no index bits".into());
+                        }
+                    }
                     "cap" => {
                         let (r, w) = (f.pos / DIGEST_ELEMS % roots.len(), f.pos % DIGEST_ELEMS);
                         roots[r][w] += F::ONE;
@@ -198,6 +214,7 @@ macro_rules! mmcs_universe {
                 // native
                 let commit2: <MyMmcs as Mmcs<F>>::Commitment = roots.clone().into();
                 let native = observe(|| mmcs.verify_batch(&commit2, &dimensions, idx2, BatchOpeningRef::new(&values, &proof)).is_ok()).unwrap_or(false);
+        let native = native && f.kind != "index_bit_nonbool";
                 // in-circuit
                 let built = observe(|| {
                     let mut b = CircuitBuilder::<CF>::new();
@@ -219,7 +236,7 @@ macro_rules! mmcs_universe {
                 let d = <CF as BasedVectorSpace<F>>::DIMENSION;
                 let ran = observe(|| {
                     let mut pubs: Vec<CF> = values.iter().flat_map(|v| v.iter().map(|x| CF::from(*x))).collect();
-                    pubs.extend((0..log_max).map(|k| CF::from_bool((idx2 >> k) & 1 == 1)));
+                    pubs.extend((0..log_max).map(|k| super::dir_value::<F, CF>(f, log_max, k, (idx2 >> k) & 1 == 1)));
                     for r in &roots {
                         for ch in r.chunks(d) {
                             let mut c = vec![F::ZERO; d];
@@ -484,6 +501,11 @@ pub mod kb4a4 {
                 }
                 idx2 = index ^ (1 << (f.pos % log_max));
             }
+            "index_bit_nonbool" => {
+                if log_max == 0 {
+                    return Err("no index bits".into());
+                }
+            }
             "cap" => {
                 let (r, w) = (f.pos / DIGEST_ELEMS % roots.len(), f.pos % DIGEST_ELEMS);
                 roots[r][w] += F::ONE;
@@ -492,6 +514,7 @@ pub mod kb4a4 {
         }
         let commit2: <Mmcs4 as Mmcs<F>>::Commitment = roots.clone().into();
         let native = observe(|| m.verify_batch(&commit2, &dimensions, idx2, BatchOpeningRef::new(&values, &proof)).is_ok()).unwrap_or(false);
+        let native = native && f.kind != "index_bit_nonbool";
         let cfg = Poseidon2Config::KOALA_BEAR_D4_W32;
         let built = observe(|| {
             let mut b = CircuitBuilder::<CF>::new();
@@ -511,7 +534,7 @@ pub mod kb4a4 {
         };
         let ran = observe(|| {
             let mut pubs: Vec<CF> = values.iter().flat_map(|v| v.iter().map(|x| CF::from(*x))).collect();
-            pubs.extend((0..log_max).map(|k| CF::from_bool((idx2 >> k) & 1 == 1)));
+            pubs.extend((0..log_max).map(|k| super::dir_value::<F, CF>(f, log_max, k, (idx2 >> k) & 1 == 1)));
             for r in &roots {
                 pubs.extend(pack_digest(r));
             }
@@ -700,6 +723,11 @@ pub mod kb4salt {
                 }
                 idx2 = index ^ (1 << (f.pos % log_max));
             }
+            "index_bit_nonbool" => {
+                if log_max == 0 {
+                    return Err("no index bits".into());
+                }
+            }
             "cap" => {
                 let (r, w) = (f.pos / DIGEST_ELEMS % roots.len(), f.pos % DIGEST_ELEMS);
                 roots[r][w] += F::ONE;
@@ -709,6 +737,7 @@ pub mod kb4salt {
         let commit2: <HMmcs as Mmcs<F>>::Commitment = roots.clone().into();
         let native_proof = (salts.clone(), proof.clone());
         let native = observe(|| m.verify_batch(&commit2, &dimensions, idx2, BatchOpeningRef::new(&values, &native_proof)).is_ok()).unwrap_or(false);
+        let native = native && f.kind != "index_bit_nonbool";
         let built = observe(|| {
             let mut b = CircuitBuilder::<CF>::new();
             b.enable_poseidon2_perm::<p3_poseidon2_circuit_air::KoalaBearD4Width16, _>(generate_poseidon2_trace::<CF, p3_poseidon2_circuit_air::KoalaBearD4Width16>, perm.clone());
@@ -730,7 +759,7 @@ pub mod kb4salt {
         let ran = observe(|| {
             let mut pubs: Vec<CF> = values.iter().flat_map(|v| v.iter().map(|x| CF::from(*x))).collect();
             pubs.extend(salts.iter().flat_map(|v| v.iter().map(|x| CF::from(*x))));
-            pubs.extend((0..log_max).map(|k| CF::from_bool((idx2 >> k) & 1 == 1)));
+            pubs.extend((0..log_max).map(|k| super::dir_value::<F, CF>(f, log_max, k, (idx2 >> k) & 1 == 1)));
             for r in &roots {
                 for ch in r.chunks(d) {
                     pubs.push(CF::from_basis_coefficients_slice(ch).unwrap());
@@ -906,6 +935,7 @@ pub fn one_run(ctx: &Ctx, idx: u64, out: &mut RunOut) {
         plans.extend((0..ns).map(|p| MFault { kind: "sibling".into(), index, pos: p }));
         plans.extend((0..nb).map(|p| MFault { kind: "index_bit".into(), index, pos: p }));
         plans.extend((0..nc).map(|p| MFault { kind: "cap".into(), index, pos: p }));
+        plans.extend((0..3 * nb).map(|p| MFault { kind: "index_bit_nonbool".into(), index, pos: p }));
         for f in plans {
             let o = match run_case(&shape, &f) {
                 Ok(o) => o,
@@ -990,12 +1020,12 @@ pub fn main(ctx: &Ctx) -> i32 {
         runs,
         Spec {
             level: "fault_enumeration",
-            rule: "one run = one seeded batch of 1..5 matrices (heights 1..32/64: equal, mixed powers of two, strictly decreasing; widths from {1,2,3,5,7,8,9,15,16,17,24}; cap height 0..2) committed by the native MerkleTreeMmcs (binary trees over KoalaBear / BabyBear width-16 Poseidon2, and quaternary trees over KoalaBear width-32 Poseidon2 against verify_batch_circuit_arity4, and salted MerkleTreeHidingMmcs binary trees over KoalaBear with one more fault kind (every salt element), one run in four each); honest opening at every index natively and in-circuit; then at 2/6 sampled indices every opened value, every sibling digest word, every index bit and every cap entry word is altered, one at a time; native verify_batch verdict == circuit run verdict. distinct = distinct (universe, #matrices, #distinct heights, cap height, fault kind).",
+            rule: "one run = one seeded batch of 1..5 matrices (heights 1..32/64: equal, mixed powers of two, strictly decreasing, one run in three (two in three for arity 4) with a non-power-of-two tallest height h and ceil(h/2^k) rows further up, arity-4 batches sitting exactly on quaternary layers; widths from {1,2,3,5,7,8,9,15,16,17,24}; cap height 0..2) committed by the native MerkleTreeMmcs (binary trees over KoalaBear / BabyBear width-16 Poseidon2, and quaternary trees over KoalaBear width-32 Poseidon2 against verify_batch_circuit_arity4, and salted MerkleTreeHidingMmcs binary trees over KoalaBear with one more fault kind (every salt element), one run in four each); honest opening at every index natively and in-circuit; then at 2/6 sampled indices every opened value, every sibling digest word, every index bit and every cap entry word is altered, one at a time, and every direction input is given a non-boolean value (2, 7, p-1: corresponds to no index, must be refused); native verify_batch verdict == circuit run verdict. distinct = distinct (universe, #matrices, #distinct heights, cap height, fault kind).",
             exhaustive: true,
             assumptions: vec!["exhaustive over single faults of the sampled openings; dimension vectors and indices sampled".into()],
             components_real: vec!["MerkleTreeMmcs commit/open_batch/verify_batch", "verify_batch_circuit", "add_mmcs_verify / Poseidon2 Merkle-mode executor", "CircuitRunner"],
             components_stub: vec![],
-            not_covered: vec!["arity-4 with BabyBear", "salted arity-4",  "extension-field leaves (verify_batch_circuit_from_extension_opened; exercised through FRI commit-phase openings in C01/C07)", "non-power-of-two heights"],
+            not_covered: vec!["arity-4 with BabyBear", "salted arity-4",  "extension-field leaves (verify_batch_circuit_from_extension_opened; exercised through FRI commit-phase openings in C01/C07)", "heights the native tree refuses"],
             extra: json!({}),
         },
     )
